@@ -200,6 +200,70 @@ fn sock_err(e: &io::Error) -> String {
     format!("err{}{}", kind_index(e.kind()), if e.raw_os_error().is_some() { "" } else { "!" })
 }
 
+/// one thread emits a metric and flushes, and then expects that metric on the wire; three other threads do
+/// nothing but flush.  Whatever the interleaving, once the emitter's own flush has returned Ok its metric has
+/// been sent (C06 under concurrency, C12).
+fn run_flushrace(kind: &str, iters: usize) -> String {
+    let (sink, peer) = match build(kind, "512", false) {
+        Some(x) => x,
+        None => return "setup-failed".to_string(),
+    };
+    match &peer {
+        Peer::Udp(s, _) => {
+            let _ = s.set_nonblocking(false);
+            let _ = s.set_read_timeout(Some(Duration::from_millis(300)));
+        }
+        Peer::Unix(s, _, _) => {
+            let _ = s.set_nonblocking(false);
+            let _ = s.set_read_timeout(Some(Duration::from_millis(300)));
+        }
+    }
+    let stop = Arc::new(AtomicU64::new(0));
+    let mut hs = Vec::new();
+    for _ in 0..3 {
+        let sink = sink.clone();
+        let stop = stop.clone();
+        hs.push(std::thread::spawn(move || {
+            while stop.load(Ordering::Acquire) == 0 {
+                let _ = sink.flush();
+            }
+        }));
+    }
+    let mut buf = vec![0u8; 2048];
+    let mut verdict = "ok".to_string();
+    'outer: for i in 0..iters {
+        let m = format!("fr.{}", i);
+        if sink.emit(&m).is_err() || sink.flush().is_err() {
+            verdict = format!("emit-or-flush-failed-at-{}", i);
+            break;
+        }
+        let want = format!("{}\n", m);
+        // the metric may share a datagram with nothing else (only this thread emits); read until it shows up
+        let t0 = Instant::now();
+        loop {
+            let r = match &peer {
+                Peer::Udp(s, _) => s.recv(&mut buf),
+                Peer::Unix(s, _, _) => s.recv(&mut buf),
+            };
+            match r {
+                Ok(n) if buf[..n] == *want.as_bytes() => break,
+                Ok(_) => {}
+                Err(_) => {
+                    if t0.elapsed() >= Duration::from_millis(300) {
+                        verdict = format!("flush-returned-Ok-but-the-metric-emitted-before-it-was-not-sent-iteration-{}", i);
+                        break 'outer;
+                    }
+                }
+            }
+        }
+    }
+    stop.store(1, Ordering::Release);
+    for h in hs {
+        let _ = h.join();
+    }
+    verdict
+}
+
 /// ground truth for "send attempts": a back-pressure case is replayed in a child under `strace -e trace=sendto`
 /// and the kernel's count of send calls to the receiver's path (accepted / refused) is compared with the
 /// sink's final counters
@@ -879,6 +943,9 @@ fn run_line(line: &str) -> Option<String> {
         if f[0] == "sockbig" && f.len() == 2 {
             return Some(format!("{} => {}", l, run_big(f[1])));
         }
+        if f[0] == "sockflushrace" && f.len() == 3 {
+            return Some(format!("{} => {}", l, run_flushrace(f[1], f[2].parse().unwrap_or(1000))));
+        }
         if f[0] == "sockstrace" && f.len() == 2 {
             return Some(format!("{} => {}", l, run_strace(f[1])));
         }
@@ -1069,6 +1136,11 @@ fn main() {
     }
     for kind in ["bunix", "unix"] {
         writeln!(out, "sockstrace {} => {}", kind, run_strace(kind)).unwrap();
+        count += 1;
+    }
+    for kind in ["budp", "bunix"] {
+        let n = if tier == "quick" { 100000 } else { 2000000 };
+        writeln!(out, "sockflushrace {} {} => {}", kind, n, run_flushrace(kind, n)).unwrap();
         count += 1;
     }
     for kind in ["udp", "budp"] {
